@@ -677,7 +677,8 @@ def rule_str_cast_validates(rep: Report, idx: SourceIndex) -> None:
 	sites = []
 	for ret in [x for x in ast.walk(f.node) if isinstance(x, ast.Return) and x.value is not None]:
 		conds = list(path_conditions(f.node, ret))
-		if not any("== 'str'" in unparse(c_) and p_ for c_, p_ in conds):
+		# the `str` arm: `org_calls == 'str'` known true here (written as `== 'str'`, or as the fall-through behind `elif org_calls != 'str': raise`)
+		if not any(p_ and isinstance(a_, ast.Compare) and len(a_.ops) == 1 and isinstance(a_.ops[0], ast.Eq) and any(isinstance(x, ast.Constant) and x.value == 'str' for x in [a_.left, *a_.comparators]) for a_, p_ in atoms(f.node, ret)):
 			continue
 		# the returned expression: the argument itself, or a conditional expression one of whose branches is the argument
 		branches = [(ret.value, [])]
